@@ -101,6 +101,9 @@ func TestC11_P_Sizes(t *testing.T) {
 	rapid.Check(t, func(t *rapid.T) {
 		kind := rapid.SampledFrom([]string{"file", "file", "sharded", "plain", "quick", "tree", "symlink", "twice", "recursive"}).Draw(t, "kind")
 		st := NewStore()
+		if rapid.IntRange(0, 4).Draw(t, "pieceWrites") == 0 {
+			st.PieceWrites = rapid.SampledFrom([]int{1, 7, 64, 512}).Draw(t, "pieceSize")
+		}
 		var root cid.Cid
 		var size uint64
 		var err error
